@@ -107,6 +107,12 @@ mod proofs {
     #[kani::proof]
     #[kani::stub(std::rt::thread_cleanup, crate::noop)]
     #[kani::unwind(6)]
+    fn c11_next_prefix_p2() {
+        next_prefix_contract::<_, 2>(&mut KaniSrc);
+    }
+    #[kani::proof]
+    #[kani::stub(std::rt::thread_cleanup, crate::noop)]
+    #[kani::unwind(6)]
     fn c11_next_prefix_p3() {
         next_prefix_contract::<_, 3>(&mut KaniSrc);
     }
